@@ -273,6 +273,84 @@ theorem unionOfTypes_inh {T : Table} {fuel u : Nat} {tys : List Nat} (h : unionO
     · exact unionPair_inh h w (Or.inr (hm ▸ hw))
   · simp at h
 
+theorem flattenIds_cons (T : Table) (x : Nat) (rest : List Nat) :
+    flattenIds T (x :: rest) = flat1 T x ++ flattenIds T rest := by
+  unfold flat1
+  rw [flattenIds]
+  cases T.types[x]? with
+  | none => rfl
+  | some ty => cases ty <;> rfl
+
+theorem mem_flattenIds {T : Table} : ∀ (ids : List Nat) (x i : Nat), x ∈ ids → i ∈ flat1 T x →
+    i ∈ flattenIds T ids
+  | [], _, _, h, _ => by cases h
+  | y :: rest, x, i, h, hi => by
+    rw [flattenIds_cons]
+    rcases List.mem_cons.mp h with rfl | h'
+    · exact List.mem_append_left _ hi
+    · exact List.mem_append_right _ (mem_flattenIds rest x i h' hi)
+
+theorem flattenIds_sub {T : Table} : ∀ (ids : List Nat) (i : Nat), i ∈ flattenIds T ids →
+    ∃ x ∈ ids, i ∈ flat1 T x
+  | [], _, h => by simp [flattenIds] at h
+  | y :: rest, i, h => by
+    rw [flattenIds_cons] at h
+    rcases List.mem_append.mp h with h' | h'
+    · exact ⟨y, List.mem_cons_self .., h'⟩
+    · obtain ⟨x, hx, hi⟩ := flattenIds_sub rest i h'
+      exact ⟨x, List.mem_cons_of_mem _ hx, hi⟩
+
+/-- `union_type_ids` of first-order types contains every member's values. -/
+theorem unionIds_many {T T' : Table} {ids : List Nat} {u : Nat} (h : unionIds T ids = (T', u))
+    (hfo : ∀ x ∈ ids, FO T x) :
+    Ext T T' ∧ ∀ v, (∃ x ∈ ids, inh T [] x v) → inh T' [] u v := by
+  unfold unionIds at h
+  generalize hl : dedupKeep [] (flattenIds T ids) = l at h
+  have hmemFO : ∀ i ∈ l, FO T i := by
+    intro i hi
+    obtain ⟨x, hx, hix⟩ := flattenIds_sub ids i (dedupKeep_sub _ [] i (hl ▸ hi))
+    exact flat1_fo (hfo x hx) i hix
+  have hcover : ∀ v, (∃ x ∈ ids, inh T [] x v) → ∃ i ∈ l, inh T [] i v := by
+    rintro v ⟨x, hx, hv⟩
+    obtain ⟨i, hi, hiv⟩ := flat1_inh (hfo x hx) hv
+    exact ⟨i, hl ▸ mem_dedupKeep _ [] i (mem_flattenIds ids x i hx hi) (by simp), hiv⟩
+  match l, h, hmemFO, hcover with
+  | [], h, _, hcover =>
+    obtain ⟨hE, _⟩ := registerType_spec T (.union []) T' u h
+    exact ⟨hE, fun v hv => by obtain ⟨i, hi, _⟩ := hcover v hv; cases hi⟩
+  | [z], h, _, hcover =>
+    simp only [Prod.mk.injEq] at h
+    obtain ⟨rfl, rfl⟩ := h
+    refine ⟨Ext.refl _, ?_⟩
+    intro v hv
+    obtain ⟨i, hi, hiv⟩ := hcover v hv
+    simp at hi; subst hi; exact hiv
+  | a :: b :: rest, h, hmemFO, hcover =>
+    obtain ⟨hE, hu⟩ := registerType_spec T (.union (a :: b :: rest)) T' u h
+    obtain ⟨n, hn⟩ := fo_all (a :: b :: rest) hmemFO
+    refine ⟨hE, ?_⟩
+    intro v hv
+    obtain ⟨i, hi, f, hf⟩ := hcover v hv
+    refine ⟨f + 1, ?_⟩
+    unfold inhB; rw [hu]; simp only
+    rw [List.any_eq_true]
+    exact ⟨i, hi, inhB_transfer hE f n i v _ _ f (hn i hi) hf (Nat.le_refl _)⟩
+
+theorem unionMany_inh {T : Table} {fuel u : Nat} {ids : List Nat} (h : unionMany T fuel ids = some u)
+    (w : V) (x : Nat) (hx : x ∈ ids) (hw : inh T [] x w) : inh T [] u w := by
+  unfold unionMany at h
+  split at h
+  · rename_i hall
+    split at h
+    · rename_i hT
+      simp only [Option.some.injEq] at h
+      have hp : unionIds T ids = (T, u) := by
+        cases hq : unionIds T ids with
+        | mk T' u' => rw [hq] at hT h; simp only at hT h; rw [hT, h]
+      exact (unionIds_many hp (fun y hy => ⟨fuel, List.all_eq_true.mp hall y hy⟩)).2 w ⟨x, hx, hw⟩
+    · simp at h
+  · simp at h
+
 theorem withoutNil_inh {T : Table} {fuel t t' : Nat} (h : withoutNil T fuel t = some t') (w : V)
     (hw : inh T [] t w) (hnn : w ≠ .tup none .nil) : inh T [] t' w := by
   unfold withoutNil at h
@@ -286,18 +364,8 @@ theorem withoutNil_inh {T : Table} {fuel t t' : Nat} (h : withoutNil T fuel t = 
     have hmem : i ∈ (flat1 T t).filter (fun i => !isNilTy T i) := by
       simp [List.mem_filter, hi, hin]
     split at h
-    · rename_i a ha
-      rw [ha] at hmem
-      simp only [List.mem_singleton] at hmem
-      simp only [Option.some.injEq] at h
-      rw [← h, ← hmem]; exact hiw
-    · rename_i a b hab
-      rw [hab] at hmem
-      simp only [List.mem_cons, List.not_mem_nil, or_false] at hmem
-      rcases hmem with hm | hm
-      · exact unionPair_inh h w (Or.inl (hm ▸ hiw))
-      · exact unionPair_inh h w (Or.inr (hm ▸ hiw))
     · simp at h
+    · exact unionMany_inh h w i hmem hiw
   · simp at h
 
 end QM.Soundness
